@@ -41,6 +41,7 @@ int sources(Node *n, const std::string &s) {
 void useEnvironmentLocale() {
   std::locale::global(std::locale(""));      // locale named by LANG / LC_ALL
   std::setlocale(LC_ALL, "");
+  std::ios::sync_with_stdio(false);          // read-ahead on the shared standard input
 }
 int buffers(size_t n, const char *digits) {
   char *raw = new char[n];                    // uninitialised dynamic buffer
